@@ -111,6 +111,7 @@ type Node struct {
 	tip          H
 	tipTS        uint64
 	pendingReset bool
+	resetHeld    bool // a slow application: the pending Reset is postponed until nothing else is deliverable
 	incarnation  int
 
 	// pools
@@ -157,7 +158,13 @@ func (n *Node) build() {
 	opts := []func(*dbft.Config[H]){
 		dbft.WithTimer[H](n.t),
 		dbft.WithLogger[H](zap.NewNop()),
-		dbft.WithTimePerBlock[H](func() time.Duration { return sc.TimePerBlock }),
+		dbft.WithTimePerBlock[H](func() time.Duration {
+			if sc.TimeVar {
+				// block times are chain state (e.g. a governance setting): they differ from height to height
+				return sc.TimePerBlock + time.Duration(n.height%2)*time.Second
+			}
+			return sc.TimePerBlock
+		}),
 		dbft.WithTimestampIncrement[H](sc.TSIncrement),
 		dbft.WithGetKeyPair[H](func(pubs []dbft.PublicKey) (int, dbft.PrivateKey, dbft.PublicKey) {
 			for i, p := range pubs {
@@ -231,7 +238,12 @@ func (n *Node) build() {
 	}
 	if sc.MaxTimePerBlock > 0 {
 		opts = append(opts,
-			dbft.WithMaxTimePerBlock[H](func() time.Duration { return sc.MaxTimePerBlock }),
+			dbft.WithMaxTimePerBlock[H](func() time.Duration {
+				if sc.TimeVar {
+					return sc.MaxTimePerBlock + time.Duration(n.height%2)*5*time.Second
+				}
+				return sc.MaxTimePerBlock
+			}),
 			dbft.WithSubscribeForTxs[H](func() { n.subscribes++ }),
 		)
 	}
@@ -487,7 +499,7 @@ func (n *Node) Start() {
 }
 
 func (n *Node) Reset() {
-	n.pendingReset = false
+	n.pendingReset, n.resetHeld = false, false
 	n.api("Reset", nil, func() { n.d.Reset(n.tipTS) })
 	n.flush()
 }
